@@ -61,6 +61,9 @@ func (k msgServer) CreateReporter(goCtx context.Context, msg *types.MsgCreateRep
 	if msg.CommissionRate.GT(math.LegacyNewDec(100)) {
 		return nil, errors.New("commission rate must be LTE 100 as that is a 100 percent commission rate")
 	}
+	if msg.CommissionRate.IsNegative() {
+		return nil, errors.New("commission rate must not be negative")
+	}
 	// set the reporter and set the self selector
 	if err := k.Keeper.Reporters.Set(goCtx, addr.Bytes(), types.NewReporter(msg.CommissionRate, msg.MinTokensRequired)); err != nil {
 		return nil, err
